@@ -1,0 +1,104 @@
+//go:build verif
+
+// Contracts for the verification machinery in /verif (comment-only; compiled only with -tags verif).
+
+package didtransformer
+
+// ---- C19: producing the external document never writes the transformer, the resolution model or the internal
+// document (no modifies clause = nothing that existed before the call may change) ----
+//
+//@ func contains
+//@   loop 1
+//@     invariant forall q int :: 0 <= q && q < _k ==> values[q] != value
+//@   ensures result == (exists q int :: 0 <= q && q < len(values) && values[q] == value)
+//
+//@ func interfaceArray
+//@   loop 1
+//@     invariant len(iArr) == _k
+//@     invariant forall q int :: 0 <= q && q < _k ==> iArr[q] == boxed(values[q])
+//@   ensures len(result) == len(values)
+//@   ensures forall q int :: 0 <= q && q < len(values) ==> result[q] == boxed(values[q])
+//
+//@ spec objID(base bool, docID string, objectID string) any { cond(base, boxed("#" + objectID), boxed(docID + ("#" + objectID))) }
+//@ spec docIDOf(m map[string]any) string { cond(isType(m["id"], "string"), unbox(m["id"], "string"), "") }
+//@ func (*Transformer).getObjectID
+//@   requires t != nil
+//@   ensures result == objID(t.includeBase, docID, objectID)
+//
+//@ func getED2519PublicKey
+//@   trusted
+//
+// every internal service appears once, in order, as a new object whose id is the DID-qualified service id
+//@ spec svcOf(d document.DIDDocument) []document.Service { svcArr(d["service"]) }
+//@ spec keysOf(d document.DIDDocument) []document.PublicKey { pkArr(d["publicKey"]) }
+//@ func (*Transformer).processServices
+//@   requires t != nil && resolutionResult != nil && resolutionResult.Document != nil
+//@   loop 1
+//@     invariant arrOf(services) == 0 || arrOf(services) != arrOf(old(svcOf(internal)))
+//@     invariant framed() && len(services) == _k && resolutionResult.Document == old(resolutionResult.Document) && docIDOf(resolutionResult.Document) == old(docIDOf(resolutionResult.Document)) && t.includeBase == old(t.includeBase) && (forall k string :: resolutionResult.Document[k] == old(resolutionResult.Document[k]) && (k in resolutionResult.Document) == old(k in resolutionResult.Document))
+//@     invariant forall q int :: 0 <= q && q < len(services) ==> services[q] != nil && allocated(services[q]) && fresh(services[q])
+//@     invariant forall q int :: 0 <= q && q < len(services) ==> "id" in services[q]
+//@     invariant forall q int :: 0 <= q && q < len(services) ==> services[q]["id"] == objID(t.includeBase, old(docIDOf(resolutionResult.Document)), idOf(old(svcOf(internal))[q]))
+//@   loop 2
+//@     invariant arrOf(services) == 0 || arrOf(services) != arrOf(old(svcOf(internal)))
+//@     invariant framed() && resolutionResult.Document == old(resolutionResult.Document) && docIDOf(resolutionResult.Document) == old(docIDOf(resolutionResult.Document)) && t.includeBase == old(t.includeBase) && (forall k string :: resolutionResult.Document[k] == old(resolutionResult.Document[k]) && (k in resolutionResult.Document) == old(k in resolutionResult.Document))
+//@     invariant externalService != nil && fresh(externalService) && allocated(externalService) && "id" in externalService && externalService["id"] == objID(t.includeBase, old(docIDOf(resolutionResult.Document)), idOf(sv))
+//@     invariant forall q int :: 0 <= q && q < len(services) ==> services[q] != nil && services[q] != externalService && allocated(services[q]) && fresh(services[q]) && "id" in services[q] && services[q]["id"] == objID(t.includeBase, old(docIDOf(resolutionResult.Document)), idOf(old(svcOf(internal))[q]))
+//@   ensures len(old(svcOf(internal))) > 0 ==> isType(resolutionResult.Document["service"], "[]document.Service") && len(unbox(resolutionResult.Document["service"], "[]document.Service")) == len(old(svcOf(internal)))
+//@   ensures len(old(svcOf(internal))) > 0 ==> (forall q int :: 0 <= q && q < len(old(svcOf(internal))) ==> unbox(resolutionResult.Document["service"], "[]document.Service")[q]["id"] == objID(t.includeBase, old(docIDOf(resolutionResult.Document)), idOf(old(svcOf(internal))[q])))
+//@   ensures forall k string :: k != "service" ==> resolutionResult.Document[k] == old(resolutionResult.Document[k]) && (k in resolutionResult.Document) == old(k in resolutionResult.Document)
+//@   ensures len(old(svcOf(internal))) == 0 ==> ("service" in resolutionResult.Document) == old("service" in resolutionResult.Document)
+//@   modifies mapOf(resolutionResult.Document)
+//
+// every internal key appears once, in order, as a new verification-method object with the DID-qualified key id and the
+// DID as controller
+//@ func (*Transformer).processKeys
+//@   requires t != nil && resolutionResult != nil && resolutionResult.Document != nil
+//@   loop 1
+//@     invariant framed() && purposes != nil && (forall k string :: k in purposes ==> localArr(purposes[k])) && (forall k string :: k in purposes ==> k == "authentication" || k == "assertionMethod" || k == "keyAgreement" || k == "capabilityDelegation" || k == "capabilityInvocation") && resolutionResult.Document["@context"] == old(resolutionResult.Document["@context"]) && ("@context" in resolutionResult.Document) == old("@context" in resolutionResult.Document) && (forall k string :: resolutionResult.Document[k] == old(resolutionResult.Document[k]) && (k in resolutionResult.Document) == old(k in resolutionResult.Document))
+//@     invariant resolutionResult.Document == old(resolutionResult.Document) && did == old(docIDOf(resolutionResult.Document)) && t.includeBase == old(t.includeBase) && len(publicKeys) == _k
+//@     invariant arrOf(publicKeys) == 0 || arrOf(publicKeys) != arrOf(old(keysOf(internal)))
+//@     invariant forall q int :: 0 <= q && q < len(publicKeys) ==> publicKeys[q] != nil && allocated(publicKeys[q]) && fresh(publicKeys[q])
+//@     invariant forall q int :: 0 <= q && q < len(publicKeys) ==> "id" in publicKeys[q] && "controller" in publicKeys[q]
+//@     invariant forall q int :: 0 <= q && q < len(publicKeys) ==> publicKeys[q]["id"] == objID(t.includeBase, old(docIDOf(resolutionResult.Document)), idOf(old(keysOf(internal))[q])) && publicKeys[q]["controller"] == boxed(old(docIDOf(resolutionResult.Document)))
+//@   loop 2
+//@     invariant framed() && purposes != nil && (forall k string :: k in purposes ==> localArr(purposes[k])) && (forall k string :: k in purposes ==> k == "authentication" || k == "assertionMethod" || k == "keyAgreement" || k == "capabilityDelegation" || k == "capabilityInvocation") && resolutionResult.Document["@context"] == old(resolutionResult.Document["@context"]) && ("@context" in resolutionResult.Document) == old("@context" in resolutionResult.Document) && (forall k string :: resolutionResult.Document[k] == old(resolutionResult.Document[k]) && (k in resolutionResult.Document) == old(k in resolutionResult.Document))
+//@     invariant resolutionResult.Document == old(resolutionResult.Document) && did == old(docIDOf(resolutionResult.Document)) && t.includeBase == old(t.includeBase)
+//@     invariant arrOf(publicKeys) == 0 || arrOf(publicKeys) != arrOf(old(keysOf(internal)))
+//@     invariant forall q int :: 0 <= q && q < len(publicKeys) ==> publicKeys[q] != nil && allocated(publicKeys[q]) && fresh(publicKeys[q])
+//@     invariant forall q int :: 0 <= q && q < len(publicKeys) ==> "id" in publicKeys[q] && "controller" in publicKeys[q]
+//@     invariant forall q int :: 0 <= q && q < len(publicKeys) ==> publicKeys[q]["id"] == objID(t.includeBase, old(docIDOf(resolutionResult.Document)), idOf(old(keysOf(internal))[q])) && publicKeys[q]["controller"] == boxed(old(docIDOf(resolutionResult.Document)))
+//@   loop 3
+//@     invariant framed() && resolutionResult.Document == old(resolutionResult.Document) && t.includeBase == old(t.includeBase) && (forall k string :: k in purposes ==> k == "authentication" || k == "assertionMethod" || k == "keyAgreement" || k == "capabilityDelegation" || k == "capabilityInvocation")
+//@     invariant len(publicKeys) == len(old(keysOf(internal)))
+//@     invariant forall k string :: !(k == "verificationMethod" || k == "@context" || k == "authentication" || k == "assertionMethod" || k == "keyAgreement" || k == "capabilityDelegation" || k == "capabilityInvocation") ==> resolutionResult.Document[k] == old(resolutionResult.Document[k]) && (k in resolutionResult.Document) == old(k in resolutionResult.Document)
+//@     invariant len(publicKeys) > 0 ==> isType(resolutionResult.Document["verificationMethod"], "[]document.PublicKey") && unbox(resolutionResult.Document["verificationMethod"], "[]document.PublicKey") == publicKeys
+//@     invariant forall q int :: 0 <= q && q < len(publicKeys) ==> publicKeys[q] != nil && allocated(publicKeys[q]) && fresh(publicKeys[q])
+//@     invariant forall q int :: 0 <= q && q < len(publicKeys) ==> "id" in publicKeys[q] && "controller" in publicKeys[q]
+//@     invariant forall q int :: 0 <= q && q < len(publicKeys) ==> publicKeys[q]["id"] == objID(t.includeBase, old(docIDOf(resolutionResult.Document)), idOf(old(keysOf(internal))[q])) && publicKeys[q]["controller"] == boxed(old(docIDOf(resolutionResult.Document)))
+//@   results err
+//@   ensures err == nil && len(old(keysOf(internal))) > 0 ==> isType(resolutionResult.Document["verificationMethod"], "[]document.PublicKey") && len(unbox(resolutionResult.Document["verificationMethod"], "[]document.PublicKey")) == len(old(keysOf(internal)))
+//@   ensures err == nil && len(old(keysOf(internal))) > 0 ==> (forall q int :: 0 <= q && q < len(old(keysOf(internal))) ==> unbox(resolutionResult.Document["verificationMethod"], "[]document.PublicKey")[q]["id"] == objID(t.includeBase, old(docIDOf(resolutionResult.Document)), idOf(old(keysOf(internal))[q])) && unbox(resolutionResult.Document["verificationMethod"], "[]document.PublicKey")[q]["controller"] == boxed(old(docIDOf(resolutionResult.Document))))
+//@   ensures forall k string :: !(k == "verificationMethod" || k == "@context" || k == "authentication" || k == "assertionMethod" || k == "keyAgreement" || k == "capabilityDelegation" || k == "capabilityInvocation") ==> resolutionResult.Document[k] == old(resolutionResult.Document[k]) && (k in resolutionResult.Document) == old(k in resolutionResult.Document)
+//   the key contexts are appended to the document's @context list, in place when its backing array has room
+//@   modifies mapOf(resolutionResult.Document), elems(unbox(resolutionResult.Document["@context"], "[]any"))
+//
+//@ func (*Transformer).TransformDocument
+//@   requires t != nil
+//@   requires rm != nil ==> mdNonNil(rm.PublishedOperations) && mdNonNil(rm.UnpublishedOperations)
+//@   requires info != nil && "published" in info ==> isType(info["published"], "bool")
+//@   requires rm != nil ==> len(rm.PublishedOperations) == 0 || len(rm.UnpublishedOperations) == 0 || arrOf(rm.PublishedOperations) != arrOf(rm.UnpublishedOperations)
+//@   requires info != nil && "id" in info && t.includeBase ==> isType(info["id"], "string")
+//@   loop 1
+//@     invariant framed()
+//@   results r, err
+//@   ensures err == nil ==> r != nil && fresh(r) && r.Document != nil && fresh(r.Document) && "id" in info && r.Document["id"] == info["id"] && "id" in r.Document
+//   the internal publicKey section never appears; alsoKnownAs is carried over unchanged
+//@   ensures err == nil ==> !("publicKey" in r.Document)
+//@   ensures err == nil && len(strArr(old(rm.Doc["alsoKnownAs"]))) > 0 ==> r.Document["alsoKnownAs"] == boxed(strArr(old(rm.Doc["alsoKnownAs"])))
+//   one verification method per internal key and one service per internal service, in order, with DID-qualified ids
+//@   ensures err == nil && len(old(keysOf(cast(rm.Doc, "document.DIDDocument")))) > 0 ==> isType(r.Document["verificationMethod"], "[]document.PublicKey") && len(unbox(r.Document["verificationMethod"], "[]document.PublicKey")) == len(old(keysOf(cast(rm.Doc, "document.DIDDocument"))))
+//@   ensures err == nil && len(old(keysOf(cast(rm.Doc, "document.DIDDocument")))) > 0 ==> (forall q int :: 0 <= q && q < len(old(keysOf(cast(rm.Doc, "document.DIDDocument")))) ==> unbox(r.Document["verificationMethod"], "[]document.PublicKey")[q]["id"] == objID(t.includeBase, docIDOf(cast(info, "map[string]any")), idOf(old(keysOf(cast(rm.Doc, "document.DIDDocument")))[q])) && unbox(r.Document["verificationMethod"], "[]document.PublicKey")[q]["controller"] == boxed(docIDOf(cast(info, "map[string]any"))))
+//@   ensures err == nil && len(old(svcOf(cast(rm.Doc, "document.DIDDocument")))) > 0 ==> isType(r.Document["service"], "[]document.Service") && len(unbox(r.Document["service"], "[]document.Service")) == len(old(svcOf(cast(rm.Doc, "document.DIDDocument"))))
+//@   ensures err == nil && len(old(svcOf(cast(rm.Doc, "document.DIDDocument")))) > 0 ==> (forall q int :: 0 <= q && q < len(old(svcOf(cast(rm.Doc, "document.DIDDocument")))) ==> unbox(r.Document["service"], "[]document.Service")[q]["id"] == objID(t.includeBase, docIDOf(cast(info, "map[string]any")), idOf(old(svcOf(cast(rm.Doc, "document.DIDDocument")))[q])))
+//@   modifies elems(rm.PublishedOperations), elems(rm.UnpublishedOperations)
